@@ -572,7 +572,7 @@ struct Driver {
       } else if (op == "reserve") {
         NEED_ALIVE(a);
         long n = I(2);
-        NEED(n >= 0);
+        NEED(n >= 0 && static_cast<unsigned long long>(n) <= static_cast<unsigned long long>(std::numeric_limits<typename V::size_type>::max()));
         strongOp = true;
         reserveArg = n;
         arm();
